@@ -22,8 +22,11 @@ Ids == {0, 1, 2}          \* 0 = attribute missing
    explicit sign, digit separator, NaN, infinity, 400 digits, non-ASCII digits *)
 OddNumbers == {"exp", "negzero", "hex", "plus", "sep", "nan", "inf", "long", "uni"}
 TruncPlaces == {"tag", "edge", "data", "dataalt", "dataother", "comment", "cdata"}
-NodeUnits == {<<[t |-> "N", id |-> i, open |-> o]>> : i \in Ids, o \in BOOLEAN}
+(* id 7 is the node whose name consists of the characters XML must escape: the document carries it as a mixture
+   of entities and character references and the reader must decode them *)
+NodeUnits == {<<[t |-> "N", id |-> i, open |-> o]>> : i \in Ids \cup {7}, o \in BOOLEAN}
 EmptyEdgeUnits == {<<[t |-> "E", s |-> a, d |-> b, open |-> FALSE]>> : a \in Ids, b \in Ids}
+                  \cup {<<[t |-> "E", s |-> 7, d |-> 1, open |-> FALSE]>>, <<[t |-> "E", s |-> 2, d |-> 7, open |-> FALSE]>>}
 DataForms ==
   {[t |-> "D", key |-> "weight", txt |-> x, w |-> 3] : x \in {"num", "pad", "word", "empty", "child"} \cup OddNumbers}
   \cup {[t |-> "D", key |-> k, txt |-> "num", w |-> 5] : k \in {"alt", "other", "none"}}
